@@ -23,6 +23,8 @@ SRC = vfcore.VERIF / "harness/math/c19.cxx"
 LIBS = ("TFELMathKriging", "TFELMathParser", "TFELMath", "TFELException")
 SUBJECTS = ["Kriging<1>", "Kriging<2>", "Kriging<3>", "Kriging1D", "Kriging2D", "Kriging3D", "FactorizedKriging<1,1>",
             "FactorizedKriging<1,2>", "FactorizedKriging1D1D", "FactorizedKriging1D2D", "FactorizedKriging1D3D",
+            "Kriging1D(tfel::math::vector)", "Kriging2D(tfel::math::vector)", "Kriging3D(tfel::math::vector)",
+            "FactorizedKriging1D1D(tfel::math::vector)", "FactorizedKriging1D2D(tfel::math::vector)", "FactorizedKriging1D3D(tfel::math::vector)",
             "KrigedFunction<1>/Evaluator", "KrigedFunction<2>/Evaluator", "KrigedFunction<3>/Evaluator"]
 
 
